@@ -59,3 +59,20 @@ Print Assumptions C43_built_index_mirrors.
 Theorem C43_oracle_on_model : forall i, oracle i (model_obs i) = true.
 Proof. exact oracle_on_model. Qed.
 Print Assumptions C43_oracle_on_model.
+
+(* ---- the prior-aware check (conflicts of an earlier merge) at prior = [] is the single-merge check ---- *)
+Theorem C43_model_obs_p_nil : forall i, model_obs_p [] i = model_obs i.
+Proof. exact model_obs_p_nil. Qed.
+Print Assumptions C43_model_obs_p_nil.
+
+Theorem C43_oracle_p_nil : forall i o, oracle_p [] i o = oracle i o.
+Proof. exact oracle_p_nil. Qed.
+Print Assumptions C43_oracle_p_nil.
+
+Theorem C43_check_case_p_nil : forall c, check_case_p ([], c) = check_case c.
+Proof. exact check_case_p_nil. Qed.
+Print Assumptions C43_check_case_p_nil.
+
+Theorem C43_oracle_on_model_p_nil : forall i, oracle_p [] i (model_obs_p [] i) = true.
+Proof. exact oracle_on_model_p_nil. Qed.
+Print Assumptions C43_oracle_on_model_p_nil.
